@@ -1445,7 +1445,56 @@ theorem forc_some_ne (p : Nat) (v : Bytes) (list : Expr) (body ie : Block) (ihb 
     (ihn : BodyNe F G R ae buf body) (ihe : BlockNe F G R ae buf ie) : CmdNe F G R ae buf (.forc p v list body (some ie)) := by
   intro fuel sc r env jenv out h hs hg hrel hb hx
   unfold toCmd at h
-  have h := (loopJoin_some h).resolve_right (by intro h'; have := (rangeJoin_some h').2.1; simp at this)
+  rcases loopJoin_ie_some h with h | ⟨r0, re, hr0, hre, rfl⟩
+  case inr =>
+    -- a range loop, then `if (index == 0) {…}`
+    rw [execStmts_append] at hx
+    rcases sres_bind_error hx with hx1 | ⟨e1, hx1, hx2⟩
+    · -- the loop throws: the reference has no text for the loop, with or without an `{ifempty}`
+      have hne := range_ne F G R ae buf p v list body ihb ihn fuel sc r0 env jenv out hr0 hs hg hrel hb hx1
+      intro x hxv
+      simp only [refCmd] at hxv hne
+      obtain ⟨lv, hlv, hxv⟩ := out_bind_val hxv
+      rw [hlv] at hne
+      simp only [Spec.Eval.Out.bind] at hne
+      cases lv <;> simp only [reduceCtorEq] at hxv
+      rename_i xs
+      cases xs with
+      | nil => exact hne ([], env) (by simp)
+      | cons y ys =>
+        simp only [List.isEmpty_cons, Bool.false_eq_true, if_false] at hxv hne
+        exact hne x hxv
+    · obtain ⟨xs, text, hev, ht, hrel1, hb1, hk1, hfi⟩ := range_core F G R ae buf v list body ihb fuel sc r0 env jenv e1 out hr0 hs hg hrel hb hx1
+      obtain ⟨hv, _, args, l, c, jl, ji, rbv, pc, _, _, _, _, _, _, hrb, hr0e⟩ := rangeJoin_some hr0
+      have hst : r0.2.stack = sc.stack := by
+        rw [hr0e]
+        obtain ⟨p1, p2, _⟩ := scOk_pushForRange hs v hv
+        obtain ⟨_, b2, _⟩ := toBody_scope ae body buf _ rbv hrb p1
+        simp only [Scope.pop]; rw [b2, p2]
+      have hn : sc.n ≤ r0.2.n := by
+        rw [hr0e]
+        obtain ⟨p1, _, p3⟩ := scOk_pushForRange hs v hv
+        obtain ⟨_, _, b3⟩ := toBody_scope ae body buf _ rbv hrb p1
+        simp only [Scope.pop]; omega
+      have hs' : ScOk r0.2 := scOk_of_stack hs hst hn
+      rw [execStmts_one] at hx2
+      simp only [execStmt] at hx2
+      have hcz : eval e1 (.loopFirst (sc.pushForRange v).1.2.2.2) = .val (.bool ((xs.length : Int) == 0)) := by
+        simp [eval, localNum, hfi]
+      rw [hcz] at hx2
+      simp only [withVal] at hx2
+      cases xs with
+      | nil =>
+        simp only [List.length_nil, Int.natCast_zero, beq_self_eq_true, toBoolean, if_true] at hx2
+        simp only at ht
+        subst ht
+        have hne := ihe fuel _ re env e1 (out ++ []) hre hs' (goodBuf_of_stack hg hst hn) hrel1 hb1 hx2
+        simp only [refCmd, hev, Spec.Eval.Out.bind, List.isEmpty_nil, if_true]
+        exact out_bind_not_val hne
+      | cons y ys =>
+        have hne0 : ((((y :: ys).length : Nat) : Int) == 0) = false := by simp; omega
+        simp only [hne0, toBoolean, Bool.false_eq_true, if_false] at hx2
+        cases hx2
   obtain ⟨hv, _, j, rbv, hj, hrb, he⟩ := forcJoin_some h
   simp only at he
   obtain ⟨re, hre, rfl⟩ := he
